@@ -139,10 +139,13 @@ def run_config(ctx, rep, cfg):
                 if b.lanes > 1 and kind in ("key", "tweak"):
                     nz = s.c("nz")
                     wa = canon_fields(prog, [l for (l, w) in nz.may.values()], h, b) if nz else set()
+                    # the instance is the slot of the back-end table (stable under renaming of the static
+                    # function that fills it): <file of the table>:<table>.<public role>
+                    cons2 = "src/%s.c:%s.%s" % (b.unit, b.table, name.split("_ctr_")[-1])
                     if "ctx.counter" in wa:
-                        rep.ok("C06.R2", cons, fsite(g), "discarding the batch is reconciled: the lane counters are rewritten", cfg=cn)
+                        rep.ok("C06.R2", cons2, fsite(g), "discarding the batch is reconciled: the lane counters are rewritten", cfg=cn)
                     else:
-                        rep.violation("C06.R2", cons, fsite(g),
+                        rep.violation("C06.R2", cons2, fsite(g),
                                       "%s discards the buffered %d-block batch (offset := %d) but leaves the lane counters advanced: the next keystream block is E(c+%d) where the generic back end gives E(c+1)" %
                                       (name.split("_ctr_")[-1], b.lanes, b.batch, b.lanes), cfg=cn)
     # ---- R3 CTR batch encryptors: keystream block b from counter lane b only (optimised IR)
